@@ -73,6 +73,7 @@ let () =
    | "compare" ->
        Compare.has_ge := has "--has-ge";
        Compare.rank0 := has "--rank0";
+       Compare.alias := has "--alias";
        for k = 1 to count do
          let id = Printf.sprintf "%s%d" (get "--prefix" "c" args) k in
          let cs, kinds = Compare.gen_case () in
